@@ -8,6 +8,8 @@ func ruleC08(prog *Program, rep *Report) {
 	ruleReturnAlias(prog, rep, "C08")
 	ruleGlobals(prog, rep)
 	rulePreRegister(prog, rep)
+	ruleFieldLoopBounds(prog, rep, []string{"alt"}) // a field the registration walk leaves out is registered lazily, during a shared Recompose
+	ruleFullRange(prog, rep, 4, "alt", "oj", "sen", "gen", "pretty", "asm", "jp", "")
 	// an instance taken from a pool was last used by another caller: whatever an entry does not reset is
 	// state shared between goroutines
 	ruleEntryParity(prog, rep)
